@@ -201,10 +201,18 @@ WILD = {"C01": 0.4, "C03": 0.2, "C07": 0.2, "C19": 0.3}
 DECOR = {"C01": 0.25, "C03": 0.1, "C07": 0.1, "C19": 0.2}
 
 
+# edit kinds that only one property draws: appending a data input changes the number of cards (C03's and C07's
+# oracles align cards one to one), for C19 it is an edit like any other
+EXTRA_KINDS = {"C19": ["data_append", "data_append"]}
+
+
 def make_case(prop, rng, gen_opts=None):
     # xM shortcuts in surface cards only for the unedited round trip: an edited product is written with a real
     # multiplier ('3.1 20.6451613m'), which the parser rejects (C08/C12's subject)
-    opts = dict(lattice_arrays=True, multiply_surfaces=(prop == "C01"), joint_imp_cards=True)
+    # volumes of exactly zero, microscopic volumes next to repeat shortcuts and the 6.123e-17 of a 90 degree rotation
+    # next to '0 2r' only for the unedited round trip: an EDIT inside such lists runs into the re-compressor (C08)
+    opts = dict(lattice_arrays=True, multiply_surfaces=(prop == "C01"), joint_imp_cards=True,
+                edge_volumes=(prop == "C01"), tr_tiny=(prop == "C01"), tr_forms=True)
     opts.update(gen_opts or {})
     wild = rng.random() < WILD[prop]
     return rt.gen_case(rng, wild=wild, opts=opts, decorate_p=DECOR[prop])
@@ -244,7 +252,8 @@ def run_rt(ctx, prop, n_quick, n_thorough, gen_opts=None, with_edits=True):
     for i in range(n):
         rng = random.Random(f"{ctx.seed}:{prop}:{i}")
         case = make_case(prop, rng, gen_opts)
-        prog = ED.gen_program(rng, rt.meta_int_keys(case["meta"])) if with_edits else []
+        prog = ED.gen_program(rng, rt.meta_int_keys(case["meta"]), kinds=ED.KINDS + EXTRA_KINDS.get(prop, [])) \
+            if with_edits else []
         cases.append((case, prog, False))
         lay = case.get("layout", {})
         key = "%s/%s%s" % (lay.get("seps"), lay.get("breaks"), "/tabs" if lay.get("tabs") else "")
@@ -292,6 +301,10 @@ def run_rt(ctx, prop, n_quick, n_thorough, gen_opts=None, with_edits=True):
             ctx.fail({"kind": r["kind"], "case": case, "prog": prog, "detail": r})
             continue
         if r is not None:
+            if os.environ.get("RT_DEBUG_DIR"):      # debugging aid: the failing case before shrinking
+                with open(os.path.join(os.environ["RT_DEBUG_DIR"], "%s-orig-%d.json" % (prop, idx)), "w") as fh:
+                    json.dump({"property": prop, "kind": r["kind"], "case": case, "prog": prog, "detail": r}, fh)
+
             def sig(x):
                 d = x.get("diffs") or [[""]]
                 if "error" in x:
